@@ -451,6 +451,15 @@ def directed_libraries():
                     out.append((dict(base, hd=hd, keep_order=True),
                                 [f(1, 1, 0, 100, first), f(1, 1, 0, 100, first, flen=9), f(1, 1, 0, 100, second, flen=10), f(1, 1, 1, 100, second),
                                  f(1, 1, 1, 100, first, flen=9)]))
+            # majority UMI CCA, minority error UMI TCA (sorts after it), later CCG: within 1 of the majority only
+            cca, tca, ccg = [1, 1, 0], [3, 1, 0], [1, 1, 2]
+            out.append((dict(base, hd=1, keep_order=True), [f(1, 1, 0, 100, cca), f(1, 1, 0, 100, cca, flen=9), f(1, 1, 0, 100, tca, flen=10),
+                                                            f(1, 1, 0, 100, ccg, flen=11)]))
+            # PCR copies of one molecule straddling many other fragments (matters when the buffer is inspected in between)
+            out.append((dict(base, hd=0, keep_order=True),
+                        [f(1, 1, 0, 100, u)] + [f(c, 1, 0, 100, x) for c in (2, 3) for x in (u, v1)] + [f(1, 1, 0, 100, u, flen=9)]
+                        + [f(c, 1, 0, 101, x) for c in (2, 3) for x in (u, v1)] + [f(1, 1, 1, 100, u, flen=20), f(1, 1, 1, 103, u, flen=9),
+                                                                                    f(1, 1, 1, 100, u, flen=12)]))
             # UMIs exactly hd + 1 apart must stay apart
             for hd, far in ((0, v1), (1, v2), (2, [1, 1, 1])):
                 out.append((dict(base, hd=hd), [f(1, 1, 0, 100, u), f(1, 1, 0, 100, far), f(1, 1, 0, 100, u, flen=9), f(1, 1, 0, 100, far, flen=9)]))
@@ -461,7 +470,7 @@ def mode_c06(emit, tier, rng):
     tid = 0
     for cfg, frs in directed_libraries():
         tid += 1
-        emit(run_library(dict(cfg, reuse=bool(cfg.get('cap'))), [dict(d) for d in frs], rng, tid))
+        emit(run_library(dict(cfg, reuse=True), [dict(d) for d in frs], rng, tid))      # incl. the run under ejection
     # re-use history, directed: molecules at two far sites / on two contigs / with a cap (something is handed out early)
     u, v = [0, 1, 2], [3, 3, 0]
     for kind in ('nla', 'chic', 'plain'):
@@ -648,10 +657,33 @@ def directed_sequences():
         # reverse strand (anchor = end): first member [104,120), later member [100,120) extends to the left, candidate [100,110)
         out.append(('plain', cfg, [f(1, 120, 20), f(1, 110, 10), f(1, 120, 16)]))
         out.append(('plain', cfg, [f(1, 120, 16), f(1, 120, 20), f(1, 110, 10)]))
+        # a tie: the candidate shares its END with the older molecule and its START with the newer one (first-fit: the older)
+        out.append(('plain', cfg, [f(0, 100, 10), f(0, 105, 15), f(0, 105, 5)]))
+        out.append(('plain', cfg, [f(0, 100, 10), f(0, 105, 15), f(0, 100, 8, cell=2), f(0, 105, 5), f(0, 105, 15), f(0, 100, 10)]))
         # finding D61: the candidate matches an INTERIOR member only (end 110 < envelope end 115, start 102 > envelope start 100):
         # pooling 0 (member comparison) groups it, pooling 1 (envelope comparison) does not
         out.append(('plain', cfg, [f(0, 100, 10), f(0, 100, 15), f(0, 102, 8)]))
+    # cache sizes above the default 10,000 and long fragments (span <= cache/2): a long fragment of another cell fires the
+    # check while a short molecule at the same start still receives copies (ties in start: order as listed)
+    for kind in ('nla', 'plain', 'chic'):
+        for cache, long_ in ((50000, 8100), (100000, 20000), (20000, 6000)):
+            cfg = {'hd': 0, 'radius': 0, 'cache': cache, 'readlen': SINGLE, 'keep_order': True}
+            out.append((kind, cfg, [f(0, 100, 50), f(0, 100, long_, cell=2), f(0, 100, 60), f(0, 100, 55), f(0, 100, long_, cell=2)]))
+            out.append((kind, cfg, [f(0, 100, 50), f(0, 100, 60, umi=(2, 2)), f(0, 100, long_, cell=2), f(0, 100, long_ - 7, cell=3), f(0, 100, 60),
+                                    f(0, 100, 70, umi=(2, 2)), f(1, 100 + long_, 80), f(1, 100 + long_, 90)]))
     return out
+
+
+def scale_sequence(kind, cfg, frs, rng, S=1000):
+    """A random sequence blown up by S (coordinates relative to 100, lengths, cache, radius, read length): cache sizes of
+    16,000 .. 41,000 with fragments up to cache/2; a third of the fragments keep a short length."""
+    for d in frs:
+        d['site'] = 100 + (d['site'] - 100) * S
+        d['flen'] = d['flen'] * S if rng.random() < 0.66 else d['flen'] + 40
+        if d['rlen'] != SINGLE:
+            d['rlen'] *= S
+    return kind, dict(cfg, cache=cfg['cache'] * S, radius=cfg['radius'] * S,
+                      readlen=cfg['readlen'] if cfg['readlen'] == SINGLE else cfg['readlen'] * S), frs
 
 
 def scenario_to_case(s, K=6, off=100):
@@ -691,6 +723,12 @@ def mode_c07(emit, tier, rng, scenario_file):
         kind, cfg, frs = gen_sequence(rng, tier)
         tid += 1
         emit(run_schedules(kind, dict(cfg, reuse=(k % 4 == 0)), frs, rng, tid))
+    # large caches (above the default cache_size) and long fragments
+    for k in range(12 if tier == 'quick' else 150):
+        kind, cfg, frs = gen_sequence(rng, tier)
+        kind, cfg, frs = scale_sequence(kind, cfg, frs[:8], rng)
+        tid += 1
+        emit(run_schedules(kind, cfg, frs, rng, tid))
     # the same through a coordinate-sorted BAM file and the MatePairIterator inside the MoleculeIterator
     for _ in range(20 if tier == 'quick' else 300):
         kind, cfg, frs = gen_sequence(rng, tier)
